@@ -108,6 +108,10 @@ type InterpModel struct {
 	// SignalsFor decides which signal types a child evaluation may return
 	SignalsFor func(childType types.Type) []int
 	Undecided  []string
+	// EmitTests: every symbolic branch decision becomes a test(cond)→T/F event (word-level specs)
+	EmitTests bool
+	// KeepAsEvent: module functions that stay events even though they could be inlined (nil = default policy)
+	KeepAsEvent func(fn *ssa.Function) bool
 	// MainMode: used for package main — module calls are events (nothing is inlined) and loads of
 	// the two error flags fork over both values
 	MainMode bool
@@ -474,6 +478,9 @@ func (m *InterpModel) Call(mc *Machine, st *State, call ssa.CallInstruction, cal
 		}}}, true
 	}
 	// ---- module leaf value functions: an event with the raise fork; effectful helpers are inlined
+	if m.KeepAsEvent != nil && !m.KeepAsEvent(callee) {
+		return nil, false // inline
+	}
 	if !ii.Effectful[callee] && callee != ii.Interpret && callee != ii.FuncCall {
 		was := m.raised(st)
 		var outs []Outcome
@@ -685,7 +692,7 @@ func (m *InterpModel) Branch(mc *Machine, st *State, in *ssa.If, cond AV, taken 
 			return
 		}
 	}
-	if cond.K == KSym && m.MainMode {
+	if cond.K == KSym && (m.MainMode || m.EmitTests) {
 		// other symbolic decisions of main (argument count, extension, read error)
 		t := taken
 		c := cond
@@ -828,4 +835,22 @@ func sortedKeysOf(m map[string]bool) []string {
 	}
 	sort.Strings(out)
 	return out
+}
+
+
+// TypeTest: an assertion of a Borno value (static type interface{}) to a concrete type that no
+// producer ever puts into the value universe can never succeed — such arms are dead code.
+func (m *InterpModel) TypeTest(mc *Machine, st *State, in *ssa.TypeAssert, operand AV) *bool {
+	if !isEmptyInterface(in.X.Type()) || isIfaceT(in.AssertedType) {
+		return nil
+	}
+	u := m.p.BuildUniverse()
+	want := typeStr(in.AssertedType)
+	for _, t := range u.TypeList() {
+		if typeStr(t) == want {
+			return nil
+		}
+	}
+	f := false
+	return &f
 }
